@@ -15,6 +15,7 @@ The blanket impl is in scope here (the bodies need `&mut T: Buf`), so the trait'
 bodies are imported contracts as in unit buf_fwd."""
 from vx import Unit, Fn
 import buf_fwd
+import _prophecy
 
 U = Unit("buf_copy", props=["C09", "C12"])
 U.assumptions = [
@@ -72,20 +73,23 @@ U.struct("src/lib.rs", "struct TryGetError")
 
 trait_fns = dict(buf_fwd.trait_fns)
 trait_fns["take"] = Fn(ret="r", spec="ensures r.spec_limit() == limit, r.spec_inner() == self,")
-U.block("src/buf/buf_impl.rs", "trait Buf", spec_items='''
-spec fn seq(&self) -> Seq<u8>;
-spec fn wf(&self) -> bool;
-// whatever this value mutably borrows ends up (when the borrow expires) advanced by exactly n bytes
-#[verifier::prophetic] spec fn fin_adv(&self, n: int) -> bool;
-''', fns=trait_fns)
+ADV = trait_fns["advance"]
+trait_fns["advance"] = Fn(ret=ADV.ret, spec=ADV.spec.rstrip() + "\n    " + _prophecy.ADV_CLAUSE)
+U.block("src/buf/buf_impl.rs", "trait Buf", spec_items=_prophecy.SPEC_ITEMS, fns=trait_fns)
 
 fwd = {n: Fn(ret=f.ret, mode="external_body", note="proved in unit buf_fwd") for n, f in buf_fwd.fwd_fns.items()}
+# the forwarder of advance is verified here again, now including the prophetic clause
+fwd["advance"] = Fn(hints=[("before_tail", "", """let ghost s0 = (**self).seq();
+proof {
+    assert forall|n: int| 0 <= n <= s0.len() - cnt implies #[trigger] s0.skip(cnt as int).skip(n) =~= s0.skip(n + cnt) by {}
+}""")])
 U.macro_block("src/buf/buf_impl.rs", "deref_forward_buf", "impl<T: Buf + ?Sized> Buf for &mut T", fwd, spec_items=r'''
 closed spec fn seq(&self) -> Seq<u8> { (**self).seq() }
 closed spec fn wf(&self) -> bool { (**self).wf() }
 #[verifier::prophetic] closed spec fn fin_adv(&self, n: int) -> bool {
     (*final(*self)).wf() && (*final(*self)).seq() == (**self).seq().skip(n)
 }
+proof fn lemma_resolved(self) { assert((*self).seq().skip(0) =~= (*self).seq()); }
 ''')
 
 # ---- Take -----------------------------------------------------------------------------------
@@ -108,11 +112,19 @@ closed spec fn seq(&self) -> Seq<u8> {
 }
 closed spec fn wf(&self) -> bool { self.inner.wf() }
 #[verifier::prophetic] closed spec fn fin_adv(&self, n: int) -> bool { self.inner.fin_adv(n) }
+proof fn lemma_resolved(self) { lemma_take_resolved(self); self.inner.lemma_resolved(); }
 ''', fns={
     "remaining": Fn(ret="r", **IMPORTED),
     "chunk": Fn(ret="r", **IMPORTED),
-    "advance": Fn(**IMPORTED),
+    # verified here again (as in unit buf_core), now including the prophetic clause
+    "advance": Fn(hints=[("body_end", "", """proof {
+    assert((*self).seq() =~= (*old(self)).seq().skip(cnt as int));
+}""")]),
 })
+U.text("""
+// a dropped Take has dropped its inner buffer (stated so that Verus emits the datatype's resolution axiom)
+proof fn lemma_take_resolved<T>(p: Take<T>) requires has_resolved(p) ensures has_resolved(p.inner) {}
+""")
 U.block("src/buf/take.rs", "impl<T: Buf> Buf for Take<T>", emit_header="impl<T: Buf> Take<T>", fns={
     "copy_to_bytes": Fn(ret="r0", spec=TRAIT_C + """
     // exactly `len` bytes went through the adapter: the limit and the inner buffer both show it
@@ -137,6 +149,7 @@ closed spec fn wf(&self) -> bool {
     self.a.wf() && self.b.wf() && self.a.seq().len() + self.b.seq().len() <= usize::MAX
 }
 #[verifier::prophetic] closed spec fn fin_adv(&self, n: int) -> bool { true }
+proof fn lemma_resolved(self) { }
 ''', fns={
     "remaining": Fn(ret="r", **IMPORTED),
     "chunk": Fn(ret="r", **IMPORTED),
